@@ -82,6 +82,8 @@ def _case(draw, tier):
                 e["vn_hv_kv"], e["vn_lv_kv"] = vh, vl
                 for k in [k for k in e if k.startswith("tap_")]:
                     del e[k]
+    if draw(st.integers(0, 4)) == 0:
+        recipe["f_hz"] = 60.0      # line capacitances are converted through the frequency given to from_ppc / from_mpc
     opt = {"init": draw(st.sampled_from(["flat", "flat", "results"])),
            "switch_rx_ratio": draw(st.sampled_from([2, 2, 2, 0.5, 10])),
            "no_branch_g_mat": draw(st.integers(0, 9)) < 7}
@@ -457,6 +459,8 @@ def check(case):
             res.label("q-only-load")
         if a.other_solution:
             res.label("flat-start-reaches-other-solution")
+        if recipe.get("f_hz", 50.0) != 50.0:
+            res.label("f_hz:60")
         nt = a.status == "ok" and a.n_cmp >= 2 and (bool(a.feats & {"off-nominal", "shift", "phase-tap"}) or n_sw_open > 0 or renumbered)
     # MATPOWER file path. The case format has no branch conductance column -> mostly run on the variant of the network
     # without line conductance / iron losses (opt.no_branch_g_mat), a minority keeps them
